@@ -160,16 +160,20 @@ every `Compute` reports the value its function was given (0: absent).  Serialisa
 the parked writer left, hands every `Compute` exactly what it reported and ends in the final state. -/
 
 structure GOp where
-  kind : Nat      -- 0 Delete, 1 Set, 2 Compute
-  w : Nat         -- the value written (unique, non-zero); ignored for Delete
-  s : Nat         -- Compute: the value its function was given (0: absent)
+  kind : Nat      -- 0 Delete, 1 Set, 2 Compute, 3 Has, 4 Get
+  w : Nat         -- the value written (unique, non-zero); ignored for Delete, Has, Get
+  s : Nat         -- Compute: the value its function was given (0: absent); Has: 1/0 as answered; Get: the value
+                  -- returned (0: not found)
 deriving Repr, DecidableEq
 
-/-- State: the stored value, 0 for absent. -/
+/-- State: the stored value, 0 for absent.  Reads (`Has`, `Get`: the reader-gate schedules, where a reader is parked
+inside its store call) leave the state alone and must have answered what the state was. -/
 def applyG (st : Nat) (o : GOp) : Option Nat :=
   if o.kind = 0 then some 0
   else if o.kind = 1 then some o.w
-  else if o.s = st then some o.w else none
+  else if o.kind = 2 then (if o.s = st then some o.w else none)
+  else if o.kind = 3 then (if (o.s == 1) = (st != 0) then some st else none)
+  else if o.s = st then some st else none
 
 def replayG (st : Nat) : List GOp → Option Nat
   | [] => some st
